@@ -265,6 +265,12 @@ def run_shape(shape):
             models = dict(csr_array=sp.csr_array, coo_array=sp.coo_array, diags=sp.diags) if exact else dict(csr_array=sp.DCsr, coo_array=sp.DCoo, diags=sp.ddiags)
             with bound(RM, print=noprint, np=proxy, **models):
                 try:
+                    # another matrix of the same process goes through a merge and a deletion first
+                    dec = sarr([[SR(z3.RealVal(v)) for v in row] for row in ((-3, 1, 2), (1, -5, 4), (2, 4, -6))])
+                    if sparse:
+                        dec = models["csr_array"](dec)
+                    d1, dil = RM.merge_matrix_cells(dec, [[0, 2]], index_list=None)
+                    RM.delete_rate_cells(d1, [1], index_list=dil)
                     if op == "merge":
                         return RM.merge_matrix_cells(A, [list(j) for j in arg], index_list=il)
                     return RM.delete_rate_cells(A, list(arg), index_list=il)
@@ -525,6 +531,9 @@ def replay(cex):
     call = f"{'merge_matrix_cells' if op == 'merge' else 'delete_rate_cells'}(<{k}x{k} {'csr' if sparse else 'dense'}{' with stored entries ' + str(stored) if exact else ''}>, {arg}, index_list={il})"
     try:
         with contextlib.redirect_stdout(out):
+            dec = np.array([[-3.0, 1, 2], [1, -5, 4], [2, 4, -6]])          # the decoy of the symbolic run
+            d1, dil = RM.merge_matrix_cells(rsp.csr_array(dec) if sparse else dec, [[0, 2]], index_list=None)
+            RM.delete_rate_cells(d1, [1], index_list=dil)
             if op == "merge":
                 Rm, il2 = RM.merge_matrix_cells(A, [list(a) for a in arg], index_list=il)
             else:
